@@ -35,6 +35,15 @@ def block(c, cat):
         o.append('    ht::check(r.from == %d, cid, "not built from the %d-th argument");' % (i, i))
         o.append('    ht::check(ht::copies == 0 && ht::moves == 0, cid, "an argument was copied or moved");')
         o.append('    ht::check(%s, cid, "an argument was modified");' % intact)
+        if cat != 'mo':
+            # construct<list_type, I>: "constructs list_type{value}" - the list holding exactly the I-th value (Helpers!Built)
+            want = c['built'][0] + 10
+            ints = ', '.join(('std::move(b%d)' % k) if mv else 'b%d' % k for k in range(1, n + 1))
+            o.append('    ' + ' '.join('int b%d = %d;' % (k, k + 10) for k in range(1, n + 1)))
+            o.append('    auto l1 = ctpg::ftors::construct<ht::ListT, %d>{}(%s);' % (i, ints))
+            o.append('    ht::check(l1.items.size() == 1 && l1.items[0] == %d, cid, "a list type is not built as T{value} (the list of that one value)");' % want)
+            o.append('    auto l2 = ctpg::ftors::construct<std::vector<int>, %d>{}(%s);' % (i, ints))
+            o.append('    ht::check(l2.size() == 1 && l2[0] == %d, cid, "std::vector is not built as T{value} (the list of that one value)");' % want)
     elif h in ('push_back', 'emplace_back'):
         if h == 'push_back' and cat == 'mo':
             pass
